@@ -221,7 +221,12 @@ func c03Gen(r *kit.Rand, idx int, tiny []byte) c03Case {
 				at.Resume = rs
 			}
 		}
-		if c03Big && idx%25 == 11 && a == 0 {
+		if idx%48 == 5 && a == 0 {
+			// CDN outage: every CDN request of this attempt fails, so one part uses up all of the client's
+			// retries (1+2+4+8+16 s of its own back-off) and the pull must end with an error, not a crash
+			at.Stream, at.Disconnect, at.Resume = r.Chance(1, 2), 0, nil
+			at.Faults = []Fault{{Kind: "cdn", Nth: 0, Act: kit.Pick(r, []string{"status", "reset", "status"}), Code: kit.Pick(r, []int{503, 500, 404})}}
+		} else if c03Big && idx%25 == 11 && a == 0 {
 			// thorough tier: a CDN body that stops in the middle for longer than the client's 30 s stall limit
 			at.Stream, at.Disconnect, at.Resume = true, 0, nil
 			at.Faults = []Fault{{Kind: "cdn", Nth: r.Range(1, 2), Act: "stall-mid", Arg: int64(r.Intn(70000)), Code: 33}}
@@ -377,7 +382,7 @@ func c03Run(bin, work string, c *c03Case, rep *kit.Report) (vs []c03Viol, inconc
 			for _, ln := range strings.Split(crash, "\n") {
 				if strings.HasPrefix(ln, "github.com/ollama/ollama/") {
 					site = strings.TrimPrefix(ln, "github.com/ollama/ollama/")
-					if i := strings.IndexByte(site, '('); i > 0 {
+					if i := strings.LastIndexByte(site, '('); i > 0 {
 						site = site[:i]
 					}
 					break
@@ -616,7 +621,7 @@ func runC03() {
 	rep := kit.NewReport("C03")
 	cfg := rep.Cfg()
 	defer rep.Flush()
-	rep.Set("rule", "case i = PRNG(seed,'C03',i): 1-2 model versions (2-5 layers of 0 B..300 KB, layers shared between versions) and 1-4 pull attempts of one name against the real server binary; every attempt but the last carries 1-3 registry/CDN faults (5xx/4xx/404 on manifest, HEAD, blob GET, CDN; 401 with ~30 malformed challenge headers and with a well-formed one whose token endpoint is served; truncated/garbage/reset manifest; wrong or missing Content-Length on HEAD; redirect chains; CDN body truncated, bit-flipped, Range ignored, short, too long, reset), optional client disconnect after progress line k, optional synthetic resume state (multi-part -partial files, correct or corrupt). Oracle after every attempt: server alive; success => stored manifest equals the served one and every layer + config has the manifest's size and SHA-256 (re-hashed); failure => if the name resolves its manifest's layers are all intact; a fault-free attempt at the end succeeds (at most two further fault-free retries are allowed, e.g. after a digest mismatch from bytes left in the resume file) and the model can be shown. Non-trivial & distinct = distinct (sequence of fault kinds+acts per attempt, outcomes) among cases with at least one faulted attempt")
+	rep.Set("rule", "case i = PRNG(seed,'C03',i): 1-2 model versions (2-5 layers of 0 B..300 KB, layers shared between versions) and 1-4 pull attempts of one name against the real server binary; every attempt but the last carries 1-3 registry/CDN faults (5xx/4xx/404 on manifest, HEAD, blob GET, CDN; 401 with ~30 malformed challenge headers and with a well-formed one whose token endpoint is served; truncated/garbage/reset manifest; wrong or missing Content-Length on HEAD; redirect chains; CDN body truncated, bit-flipped, Range ignored, short, too long, reset), optional client disconnect after progress line k, a CDN outage for a whole attempt (two cases per 96: one part uses up all six tries of the client), optional synthetic resume state (multi-part -partial files, correct or corrupt). Oracle after every attempt: server alive; success => stored manifest equals the served one and every layer + config has the manifest's size and SHA-256 (re-hashed); failure => if the name resolves its manifest's layers are all intact; a fault-free attempt at the end succeeds (at most two further fault-free retries are allowed, e.g. after a digest mismatch from bytes left in the resume file) and the model can be shown. Non-trivial & distinct = distinct (sequence of fault kinds+acts per attempt, outcomes) among cases with at least one faulted attempt")
 	rep.Set("assumptions", []string{"served manifests are self-consistent (sizes and digests describe the blobs they name)", "quick tier: single-part layers over the wire (<100 MB), multi-part layouts through synthetic resume files; thorough tier adds real 200-230 MB layers (three download parts)", "process death is observed through /api/version + the server log"})
 	bin := os.Getenv("VERIF_OLLAMA_BIN")
 	work, err := os.MkdirTemp("", "verif-c03-")
